@@ -122,7 +122,7 @@ func openerInfo(c ssa.CallInstruction) (path ssa.Value, creates bool, ok bool) {
 		if !okf {
 			return a[0], true, true // unknown flags: assume it can create
 		}
-		const oCreate, oTrunc, oWronly, oRdwr = 0x40, 0x200, 0x1, 0x2
+		oWronly, oRdwr, _, oCreate, _, oTrunc := osOpenFlags()
 		cr := fl&oCreate != 0 || fl&oTrunc != 0
 		wr := fl&oWronly != 0 || fl&oRdwr != 0
 		if !wr && !cr {
